@@ -34,6 +34,12 @@ from xandikos.store import File, Filter, InvalidFileContents
 from . import collation as _mod_collation
 from .store.index import IndexDict, IndexKey, IndexValue, IndexValueIterator
 
+if not hasattr(component_factory, "__getitem__"):
+    # icalendar >= 6: component_factory is a module, not a mapping
+    from icalendar.cal import ComponentFactory
+
+    component_factory = ComponentFactory()
+
 TYPES_FACTORY = TypesFactory()
 
 PropTypes = Union[vText]
